@@ -69,14 +69,14 @@ Fixpoint maps_concat (sep : str) (first : bool) (encs : list (res str)) (acc : s
 (* Maps.XmlString() and Maps.XmlStringIndent(prefix, indent): encs = the per-Map Xml() / XmlIndent() results *)
 Definition maps_xml_string (encs : list (res str)) : str * option err := maps_concat [] true encs [].
 
-(* Maps.JsonString(safeEncoding...): calls v.Json() - WITHOUT the argument (as the code does) *)
+(* Maps.JsonString(safeEncoding...): j, err := v.Json(safeEncoding...) per Map (fix da6537e) *)
 Definition maps_json_string (safe : bool) (marshalled : list (res str)) : str * option err :=
-  maps_concat [] true (map (map_json false) marshalled) [].
+  maps_concat [] true (map (map_json safe) marshalled) [].
 
-(* Maps.JsonStringIndent(prefix, indent, safeEncoding...): calls v.JsonIndent(prefix, indent) - without the
-   argument - and writes "\n" between the documents *)
+(* Maps.JsonStringIndent(prefix, indent, safeEncoding...): v.JsonIndent(prefix, indent, safeEncoding...) per Map,
+   and "\n" written between the documents (haveFirst) *)
 Definition maps_json_string_indent (safe : bool) (marshalled : list (res str)) : str * option err :=
-  maps_concat [ascii_of_nat 10] true (map (map_json false) marshalled) [].
+  maps_concat [ascii_of_nat 10] true (map (map_json safe) marshalled) [].
 
 (* Maps.XmlFile / XmlFileIndent / JsonFile / JsonFileIndent: s, err := mvs.XxxString(...); if err != nil
    { return err }; create; WriteString(s) - file content (None = file not written) and error *)
